@@ -32,6 +32,7 @@ def run(idx: ProgramIndex, rep: Report, tier: str):
     rep.rule("C15-2", "subclasses take expected_log_prob (ELBO) / log_marginal (PLL) of the likelihood, summed over the data axis")
     rep.rule("C15-4", "no in-place aliasing hazard in the variational objective code (storage/version domain)")
     site_weights_aligned(idx, rep)
+    weights_read_where_stored(idx, rep)
     rep.rule("C15-3", "NGD.step scales the natural-gradient step by num_data and the learning rate, with a minus sign")
     A = idx.find_class("_ApproximateMarginalLogLikelihood")
     fi = idx.method(A, "forward", own=True)
@@ -255,3 +256,30 @@ def site_weights_aligned(idx: ProgramIndex, rep: Report):
                             "the weights get as many trailing singleton axes as the weighted term has further dimensions" if ok else
                             "`%s` gives the (q,) weights a fixed number of trailing axes: with data of batch shape (b,) the log marginals are q x b x n and the weights line up with the batch dimension - an error, or for b = q silently wrong values ([-2.64, -0.53, -3.34] instead of [-1.98, -1.36, -1.68])" % " ".join(src(wexpr).split())[:60], {})
     rep.floor("C15-8", "uses of the quadrature-site weights in objectives", n, 1)
+
+
+# ---- C15-9 ---------------------------------------------------------------------------------------------------------
+def weights_read_where_stored(idx: ProgramIndex, rep: Report):
+    """beta and num_data are plain attributes of the objective, read at every evaluation (KL warm-up schedules assign `mll.beta = ...`
+    between steps).  An objective class that stores its own copies (through the base constructor) but evaluates by delegating to another
+    objective's forward never reads them: assignments to the wrapper are accepted and ignored."""
+    rep.rule("C15-9", "an objective that stores beta / num_data evaluates with the values it stores: a wrapper that delegates forward to another objective does not keep copies of its own")
+    A = idx.cls("gpytorch.mlls._approximate_mll", "_ApproximateMarginalLogLikelihood")
+    n = 0
+    for cls in sorted(idx.subclasses(A), key=lambda c: c.qualname):
+        fw = cls.methods.get("forward")
+        if fw is None or cls is A:
+            continue
+        n += 1
+        sn = fw.params[0]
+        delegates = [c for c in calls_in(fw.node) if isinstance(c.func, ast.Attribute) and c.func.attr == "forward" and isinstance(c.func.value, ast.Attribute) and isinstance(c.func.value.value, ast.Name) and c.func.value.value.id == sn]
+        uses_super = any(isinstance(c.func, ast.Attribute) and c.func.attr == "forward" and isinstance(c.func.value, ast.Call) and chain(c.func.value.func) == "super" for c in calls_in(fw.node))
+        reads_own = any(isinstance(x, ast.Attribute) and x.attr in ("beta", "num_data") and isinstance(x.value, ast.Name) and x.value.id == sn for x in ast.walk(fw.node))
+        init = cls.methods.get("__init__")
+        stores_copies = init is not None and any(isinstance(c.func, ast.Attribute) and c.func.attr == "__init__" and any(k.arg in ("beta", "num_data") for k in c.keywords) for c in calls_in(init.node))
+        forwards_attrs = any(m in cls.methods for m in ("beta", "num_data")) or any(isinstance(d, ast.FunctionDef) and d.name in ("__getattr__", "__setattr__") for d in cls.node.body)
+        ok = not (delegates and stores_copies and not uses_super and not reads_own and not forwards_attrs)
+        rep.add("C15-9", "%s:%s.forward[weights]" % (cls.module.name, cls.qualname), fw.where, ok,
+                "evaluates with the weights it stores" if ok else
+                "forward delegates to `%s` while the constructor stores copies of beta / num_data on the wrapper: `mll.beta = 0.1` or `mll.num_data = 500` after construction is accepted and ignored (objective stays -1.8415 where the definition gives -1.6884)" % src(delegates[0].func), {})
+    rep.floor("C15-9", "objectives overriding forward", n, 1)
